@@ -194,7 +194,9 @@ Definition reader_step (g : cfg) (s : sess) (spawn_ok : bool) : option (sess * e
             else Some (set_rd s D0, FxNone)
           else Some (set_rd (set_st s PassiveClosing) (D2 seen), FxNone)
       end
-  | D2 seen => Some (set_rd s (D3 seen), FxDel)
+  | D2 seen => Some (set_rd s (if fix_pre g then DC seen else D3 seen), FxDel)
+  | DC seen => (* cancelPendingCalls before the wait: the loop is through *)
+      if all_visited (calls s) then Some (set_rd s (D3 seen), FxNone) else None
   | D3 seen => match ctxWG s with O => Some (set_rd s (D4 seen), FxNone) | _ => None end
   | D4 seen => if all_visited (calls s) then Some (set_rd s (D5 seen), FxNone) else None
   | D5 seen =>
@@ -208,18 +210,23 @@ Definition reader_step (g : cfg) (s : sess) (spawn_ok : bool) : option (sess * e
       Some (set_rd (set_hooks s1 (S (hooks s1))) RDone, FxNone)
   end.
 
-(* one iteration of readDisconnected's Range: lock, cancel iff no reply and status OK, unlock *)
-Definition visit_step (s : sess) (i : nat) : option sess :=
-  match rd s with
-  | D4 _ =>
-      match nth_error (calls s) i with
-      | None => None
-      | Some c =>
-          if c_tab c && negb (c_vis c) && mu_free c then
-            let c1 := set_cvis c true in
-            if negb (c_rep c) && cstat_ok (c_stat c) then Some (fail_call s i c1 StConnClosed)
-            else Some (set_calls s (upd (calls s) i c1))
-          else None
-      end
-  | _ => None
+(* one iteration of cancelPendingCalls' Range (both loops of readDisconnected): lock, cancel
+   iff no reply and status OK, unlock.  A visited call has left the table (a call that stays
+   in it is held by its reply side until it completes), so the second loop meets only the
+   calls issued since the first. *)
+Definition visit_body (s : sess) (i : nat) : option sess :=
+  match nth_error (calls s) i with
+  | None => None
+  | Some c =>
+      if c_tab c && negb (c_vis c) && mu_free c then
+        let c1 := set_cvis c true in
+        if negb (c_rep c) && cstat_ok (c_stat c) then Some (fail_call s i c1 StConnClosed)
+        else Some (set_calls s (upd (calls s) i c1))
+      else None
   end.
+
+(* the reader is inside one of its two cancel loops *)
+Definition rd_cancel (r : rpc) : bool := match r with D4 _ | DC _ => true | _ => false end.
+
+Definition visit_step (s : sess) (i : nat) : option sess :=
+  if rd_cancel (rd s) then visit_body s i else None.
